@@ -1922,8 +1922,8 @@ def run(ctx: vlib.Ctx):
     k4_ok = bool(ctx.kernel_report.get("K4", {}).get("ok"))
     if not ctx.quick() and br.ok:
         # second opinion of the independent checker on the compiled library of the property file
-        rc, out, secs = vlib.run(["timeout", "600", "coqchk", "-silent", "-o"] + vlib.COQ_FLAGS[:9] + ["VerifProps.C09_keys"],
-                                 cwd=vlib.COQ, timeout=640)
+        rc, out, secs = vlib.run(["timeout", "3000", "coqchk", "-silent", "-o"] + vlib.COQ_FLAGS[:9] + ["VerifProps.C09_keys"],
+                                 cwd=vlib.COQ, timeout=3060)
         good = rc == 0 and "* Axioms: <none>" in out
         ctx.obligation("coqchk VerifProps.C09_keys (axioms: none)", good, out[-600:])
         if not good:
